@@ -311,6 +311,23 @@ theorem inv_cb {σ : State} {i : Nat} {b : Bool} (h : Inv σ) :
   · intro r hr; have := h.reqLog r hr; simp; refine ⟨this.1, this.2.1, by omega⟩
 
 set_option maxHeartbeats 1000000 in
+theorem inv_watch {σ : State} {i : Nat} (h : Inv σ) :
+    Inv { σ with now := σ.now + 1, watching := true, registered := true, lastDrop := none,
+                 threads := σ.threads.set i .watchDone } := by
+  refine inv_tick h rfl rfl rfl rfl rfl rfl rfl rfl rfl rfl rfl rfl rfl rfl rfl rfl ?_ ?_
+  · intro s' hs'; rcases mem_set_reqSet hs' with h' | h'
+    · exact h.thr s' h'
+    · cases h'
+  · intro r hr; have := h.reqLog r hr; simp; refine ⟨this.1, this.2.1, by omega⟩
+
+theorem inv_persist {σ : State} {i : Nat} {b : Bool} (h : Inv σ) :
+    Inv { σ with now := σ.now + 1, persistent := b, threads := σ.threads.set i .persistDone } := by
+  refine inv_tick h rfl rfl rfl rfl rfl rfl rfl rfl rfl rfl rfl rfl rfl rfl rfl rfl ?_ ?_
+  · intro s' hs'; rcases mem_set_reqSet hs' with h' | h'
+    · exact h.thr s' h'
+    · cases h'
+  · intro r hr; have := h.reqLog r hr; simp; refine ⟨this.1, this.2.1, by omega⟩
+
 theorem inv_lockPanic {σ : State} {i : Nat} (h : Inv σ) :
     Inv { σ with now := σ.now + 1, lockPanics := σ.lockPanics + 1, panicTids := i :: σ.panicTids,
                  threads := σ.threads.set i .acqDone } := by
@@ -383,6 +400,8 @@ theorem inv_step {σ σ' : State} {i : Nat} (h : Inv σ) (hs : step σ i = some 
     cases hs; exact inv_reqRet h (List.mem_of_getElem? hth)
   · cases hs; exact inv_fast h
   · cases hs; exact inv_cb h
+  · cases hs; exact inv_watch h
+  · cases hs; exact inv_persist h
   · cases hs
 
 theorem inv_of_reachable {σ : State} (h : Reachable σ) : Inv σ := by
@@ -442,5 +461,49 @@ theorem genInv_of_reachable {σ : State} (h : Reachable σ) : GenInv σ := by
   induction h with
   | init ths _ => exact genInv_init ths
   | step i _ hs ih => exact genInv_step ih hs
+
+
+/-! ## the fs watcher's lifetime -/
+
+/-- paths that were registered are being watched, unless the watcher was thrown away by a reload
+    that started while neither `persistent_watch` nor fast reload was on (and nobody re-registered) -/
+structure WatchInv (σ : State) : Prop where
+  alive : σ.registered = true → σ.watching = true ∨ σ.lastDrop = some (false, false)
+  reg : σ.watching = true → σ.registered = true
+
+theorem watchInv_init (ths : List Thread) : WatchInv (init ths) := by
+  constructor <;> simp [init]
+
+theorem watchInv_stepActive {σ σ' : State} {c : Active} (h : WatchInv σ)
+    (hs : stepActive σ c = some σ') : WatchInv σ' := by
+  obtain ⟨h1, h2⟩ := h
+  unfold stepActive at hs
+  repeat' split at hs
+  all_goals first
+    | (cases hs; done)
+    | (cases hs
+       constructor <;> simp_all [dropWatcher] <;> grind)
+
+theorem watchInv_step {σ σ' : State} {i : Nat} (h : WatchInv σ) (hs : step σ i = some σ') :
+    WatchInv σ' := by
+  unfold step at hs
+  split at hs
+  · split at hs
+    · split at hs <;> cases hs <;> exact ⟨h.alive, h.reg⟩
+    · cases hs
+  · split at hs
+    · split at hs
+      · exact watchInv_stepActive h hs
+      · cases hs
+    · cases hs
+  all_goals first
+    | (cases hs; done)
+    | (cases hs; exact ⟨h.alive, h.reg⟩)
+    | (cases hs; constructor <;> simp)
+
+theorem watchInv_of_reachable {σ : State} (h : Reachable σ) : WatchInv σ := by
+  induction h with
+  | init ths _ => exact watchInv_init ths
+  | step i _ hs ih => exact watchInv_step ih hs
 
 end MJ.Reloader
